@@ -156,8 +156,10 @@ def main():
         if known:
             print('  known findings skipped: %s' % ', '.join(known))
         for name in ('grace_period', 'registries', 'never_replaced', 'vanished_worker', 'reaps_nothing', 'exit_status', 'reaped_worker_is_marked', 'other'):
-            if not any(name in k for k in known):
-                bad += scenarios(name)
+            # (a scenario group is left out only for the recorded finding it reproduces: D12 <-> reaps_nothing)
+            if name == 'reaps_nothing' and any(k.endswith('in_a_tick_that_reaps_nothing') for k in known):
+                continue
+            bad += scenarios(name)
     else:
         bad = scenarios(ob)
     for b in bad:
